@@ -110,6 +110,13 @@ fn check_registers(insn: &ebpf::Insn, store: bool, insn_ptr: usize) -> Result<()
 }
 
 pub fn check(prog: &[u8]) -> Result<(), Error> {
+    let res = check_all(prog);
+    #[cfg(all(rbpf_verif, feature = "std"))]
+    crate::verif::verdict(prog, &res);
+    res
+}
+
+fn check_all(prog: &[u8]) -> Result<(), Error> {
     check_prog_len(prog)?;
 
     let mut insn_ptr: usize = 0;
